@@ -1,6 +1,6 @@
 (** * Proofs/Btor2RtSim.v — the reader follows the writer, line by line (expressions and sorts).
 
-    [Inv m st ps]: the reader, run on the lines the writer has emitted so far ([w_lines st]), is in
+    [Inv v m st ps]: the reader, run on the lines the writer has emitted so far ([w_lines st]), is in
     state [ps] without having recorded an error; every sort id of the writer's sort table denotes
     that sort in the reader's type map; every id of the writer's expression cache denotes, in the
     reader's signal map, the translation [tr m] of the cached expression.  [m] maps the symbols
@@ -65,29 +65,35 @@ Qed.
 (** ** running the reader on the emitted prefix *)
 Definition BOUND : N := U32MAX + 1.
 
-Definition run (st : wstate) : pres (pstate * bool) := parse_fold true (rev (w_lines st)) p_empty false.
+(** [v]: the reader variant the simulation is about ([Cur] = without, [Fix]/[Fix2] = with the checks
+    of the repair series; the writer's lines pass all of them) *)
+Definition run (v : code_variant) (st : wstate) : pres (pstate * bool) :=
+  parse_fold_v v true (rev (w_lines st)) p_empty false.
 
-Lemma parse_fold_app dbg l1 : forall l2 st err,
-  parse_fold dbg (l1 ++ l2) st err =
-  match parse_fold dbg l1 st err with
-  | POk (s, e) => parse_fold dbg l2 s e
+Lemma parse_fold_v_app v dbg l1 : forall l2 st err,
+  parse_fold_v v dbg (l1 ++ l2) st err =
+  match parse_fold_v v dbg l1 st err with
+  | POk (s, e) => parse_fold_v v dbg l2 s e
   | PErr => PErr
   | PPanic k => PPanic k
   end.
 Proof.
-  induction l1 as [|l l1 IH]; intros l2 st err; cbn [app parse_fold]; [reflexivity|].
-  destruct (parse_line dbg st l); auto.
+  induction l1 as [|l l1 IH]; intros l2 st err; cbn [app parse_fold_v]; [reflexivity|].
+  destruct (parse_line_v v dbg st l); auto.
 Qed.
 
-Lemma run_emit st l ps ps' :
-  run st = POk (ps, false) -> parse_line true ps l = POk ps' -> run (emit st l) = POk (ps', false).
+Lemma parse_fold_v_cur dbg ls : forall st err, parse_fold_v Cur dbg ls st err = parse_fold dbg ls st err.
+Proof. induction ls as [|l ls IH]; intros st err; cbn [parse_fold_v parse_fold]; [reflexivity|]. unfold parse_line_v. cbn [variant_pre]. destruct (parse_line dbg st l); auto. Qed.
+
+Lemma run_emit v st l ps ps' :
+  run v st = POk (ps, false) -> parse_line_v v true ps l = POk ps' -> run v (emit st l) = POk (ps', false).
 Proof.
-  unfold run. cbn [emit w_lines rev]. intros H Hl. rewrite parse_fold_app, H. cbn [parse_fold]. rewrite Hl. reflexivity.
+  unfold run. cbn [emit w_lines rev]. intros H Hl. rewrite parse_fold_v_app, H. cbn [parse_fold_v]. rewrite Hl. reflexivity.
 Qed.
 
 (** ** the invariant *)
-Record Inv (m : smap) (st : wstate) (ps : pstate) : Prop := mkInv {
-  i_run : run st = POk (ps, false);
+Record Inv (v : code_variant) (m : smap) (st : wstate) (ps : pstate) : Prop := mkInv {
+  i_run : run v st = POk (ps, false);
   i_map : map_ok m;
   i_sorts : forall t id, find_sort t (w_sorts st) = Some id ->
             id < w_next st /\ PM.find (key id) (p_types ps) = Some t;
@@ -120,15 +126,15 @@ Lemma key_neq a b : a <> b -> key a <> key b.
 Proof. intros H E. apply H. apply key_inj. exact E. Qed.
 
 (** a new sort line *)
-Lemma inv_reg_sort m st ps l t :
-  Inv m st ps -> find_sort t (w_sorts st) = None ->
-  parse_line true ps l = POk (set_types ps (PM.add (key (w_next st)) t (p_types ps))) ->
-  Inv m (reg_sort (emit (fst (new_id st)) l) t (w_next st)) (set_types ps (PM.add (key (w_next st)) t (p_types ps))) /\
+Lemma inv_reg_sort v m st ps l t :
+  Inv v m st ps -> find_sort t (w_sorts st) = None ->
+  parse_line_v v true ps l = POk (set_types ps (PM.add (key (w_next st)) t (p_types ps))) ->
+  Inv v m (reg_sort (emit (fst (new_id st)) l) t (w_next st)) (set_types ps (PM.add (key (w_next st)) t (p_types ps))) /\
   mono st (reg_sort (emit (fst (new_id st)) l) t (w_next st)).
 Proof.
   intros [Hrun Hm Hs He] Hnone Hl. split.
   - constructor.
-    + apply (run_emit _ l ps); [exact Hrun|exact Hl].
+    + apply (run_emit v _ l ps); [exact Hrun|exact Hl].
     + exact Hm.
     + intros t0 id. cbn [reg_sort emit new_id fst w_sorts w_next find_sort]. destruct (ty_eqb t0 t) eqn:E.
       * intros H. inversion H; subst id. apply ty_eqb_eq in E. subst t0. split; [lia|]. cbn [set_types p_types]. apply PM.gss.
@@ -143,15 +149,15 @@ Proof.
 Qed.
 
 (** a new node line *)
-Lemma inv_reg_expr m st ps l e :
-  Inv m st ps -> find_expr e (w_exprs st) = None -> incl (syms e) (sm_dom m) ->
-  parse_line true ps l = POk (set_signal ps (w_next st) (tr m e)) ->
-  Inv m (reg_expr (emit (fst (new_id st)) l) e (w_next st)) (set_signal ps (w_next st) (tr m e)) /\
+Lemma inv_reg_expr v m st ps l e :
+  Inv v m st ps -> find_expr e (w_exprs st) = None -> incl (syms e) (sm_dom m) ->
+  parse_line_v v true ps l = POk (set_signal ps (w_next st) (tr m e)) ->
+  Inv v m (reg_expr (emit (fst (new_id st)) l) e (w_next st)) (set_signal ps (w_next st) (tr m e)) /\
   mono st (reg_expr (emit (fst (new_id st)) l) e (w_next st)).
 Proof.
   intros [Hrun Hm Hs He] Hnone Hincl Hl. split.
   - constructor.
-    + apply (run_emit _ l ps); [exact Hrun|exact Hl].
+    + apply (run_emit v _ l ps); [exact Hrun|exact Hl].
     + exact Hm.
     + intros t0 id H. cbn [reg_expr emit new_id fst w_sorts w_next] in *. destruct (Hs _ _ H) as [Hlt Hf]. split; [lia|exact Hf].
     + intros e0 id. cbn [reg_expr emit new_id fst w_exprs w_next find_expr]. destruct (expr_eqb e0 e) eqn:E.
@@ -166,54 +172,54 @@ Proof.
 Qed.
 
 (** ** sort declarations (shared through the sort table) *)
-Lemma bv_sort_sim m st ps w st' id :
-  Inv m st ps -> w <= U32MAX -> bv_sort_id st w = (st', id) -> w_next st' <= BOUND ->
-  exists ps', Inv m st' ps' /\ rest_eq ps ps' /\ p_signals ps' = p_signals ps /\
+Lemma bv_sort_sim v m st ps w st' id :
+  Inv v m st ps -> w <= U32MAX -> 0 < w -> bv_sort_id st w = (st', id) -> w_next st' <= BOUND ->
+  exists ps', Inv v m st' ps' /\ rest_eq ps ps' /\ p_signals ps' = p_signals ps /\
               find_sort (TBV w) (w_sorts st') = Some id /\ mono st st' /\ w_exprs st' = w_exprs st.
 Proof.
-  intros Hinv Hw H Hb. unfold bv_sort_id in H. destruct (find_sort (TBV w) (w_sorts st)) as [i|] eqn:E.
+  intros Hinv Hw Hpos H Hb. unfold bv_sort_id in H. destruct (find_sort (TBV w) (w_sorts st)) as [i|] eqn:E.
   - inversion H; subst st' id. exists ps. split; [exact Hinv|]. split; [apply rest_eq_refl|]. split; [reflexivity|].
     split; [exact E|]. split; [apply mono_refl|reflexivity].
   - cbn [new_id] in H. inversion H; subst st' id. clear H. cbn [reg_sort emit w_next] in Hb. unfold BOUND in Hb.
-    assert (Hl : parse_line true ps [num (w_next st); "sort"; "bitvec"; num w] =
+    assert (Hl : parse_line_v v true ps [num (w_next st); "sort"; "bitvec"; num w] =
                  POk (set_types ps (PM.add (key (w_next st)) (TBV w) (p_types ps)))).
-    { apply sort_bv_line; lia. }
-    destruct (inv_reg_sort m st ps _ (TBV w) Hinv E Hl) as [Hinv' Hmono].
+    { apply plv; [intros _; apply sort_bv_pre; assumption|apply sort_bv_line; lia]. }
+    destruct (inv_reg_sort v m st ps _ (TBV w) Hinv E Hl) as [Hinv' Hmono].
     eexists. split; [exact Hinv'|]. split; [repeat split|]. split; [reflexivity|]. split.
     + cbn [reg_sort emit new_id fst w_sorts find_sort ty_eqb]. rewrite N.eqb_refl. reflexivity.
     + split; [exact Hmono|reflexivity].
 Qed.
 
-Lemma sort_id_sim m st ps t st' id :
-  Inv m st ps -> ty_fits t = true -> sort_id st t = (st', id) -> w_next st' <= BOUND ->
-  exists ps', Inv m st' ps' /\ rest_eq ps ps' /\ p_signals ps' = p_signals ps /\
+Lemma sort_id_sim v m st ps t st' id :
+  Inv v m st ps -> ty_fits t = true -> ty_pos t -> sort_id st t = (st', id) -> w_next st' <= BOUND ->
+  exists ps', Inv v m st' ps' /\ rest_eq ps ps' /\ p_signals ps' = p_signals ps /\
               find_sort t (w_sorts st') = Some id /\ mono st st' /\ w_exprs st' = w_exprs st.
 Proof.
-  intros Hinv Ht H Hb. unfold sort_id in H. destruct (find_sort t (w_sorts st)) as [i|] eqn:E.
+  intros Hinv Ht Hpos H Hb. unfold sort_id in H. destruct (find_sort t (w_sorts st)) as [i|] eqn:E.
   - inversion H; subst st' id. exists ps. split; [exact Hinv|]. split; [apply rest_eq_refl|]. split; [reflexivity|].
     split; [exact E|]. split; [apply mono_refl|reflexivity].
   - destruct t as [w|iw dw].
-    + cbn [ty_fits] in Ht. apply N.leb_le in Ht. apply (bv_sort_sim m st ps w st' id); auto.
-    + cbn [ty_fits] in Ht. apply andb_true_iff in Ht. destruct Ht as [Hi Hd]. apply N.leb_le in Hi, Hd.
+    + cbn [ty_fits] in Ht. apply N.leb_le in Ht. apply (bv_sort_sim v m st ps w st' id); auto.
+    + cbn [ty_fits] in Ht. apply andb_true_iff in Ht. destruct Ht as [Hi Hd]. apply N.leb_le in Hi, Hd. destruct Hpos as [Hpi Hpd].
       destruct (bv_sort_id st iw) as [st1 ix] eqn:E1. destruct (bv_sort_id st1 dw) as [st2 dx] eqn:E2.
       cbn [new_id] in H. inversion H; subst st' id. clear H. cbn [reg_sort emit w_next] in Hb.
       assert (Hb2 : w_next st2 <= BOUND) by lia.
       assert (Hm12 : w_next st1 <= w_next st2).
       { unfold bv_sort_id in E2. destruct (find_sort (TBV dw) (w_sorts st1)); inversion E2; subst; cbn; lia. }
-      destruct (bv_sort_sim m st ps iw st1 ix Hinv Hi E1 ltac:(lia)) as (ps1 & Hinv1 & Hr1 & Hs1 & Hf1 & Hmo1 & He1).
-      destruct (bv_sort_sim m st1 ps1 dw st2 dx Hinv1 Hd E2 Hb2) as (ps2 & Hinv2 & Hr2 & Hs2 & Hf2 & Hmo2 & He2).
+      destruct (bv_sort_sim v m st ps iw st1 ix Hinv Hi Hpi E1 ltac:(lia)) as (ps1 & Hinv1 & Hr1 & Hs1 & Hf1 & Hmo1 & He1).
+      destruct (bv_sort_sim v m st1 ps1 dw st2 dx Hinv1 Hd Hpd E2 Hb2) as (ps2 & Hinv2 & Hr2 & Hs2 & Hf2 & Hmo2 & He2).
       assert (Hfx : find_sort (TBV iw) (w_sorts st2) = Some ix) by (apply Hmo2; exact Hf1).
-      destruct (i_sorts _ _ _ Hinv2 _ _ Hfx) as [Hlx Htx]. destruct (i_sorts _ _ _ Hinv2 _ _ Hf2) as [Hld Htd].
+      destruct (i_sorts _ _ _ _ Hinv2 _ _ Hfx) as [Hlx Htx]. destruct (i_sorts _ _ _ _ Hinv2 _ _ Hf2) as [Hld Htd].
       assert (Hnone : find_sort (TArr iw dw) (w_sorts st2) = None).
       { clear - E E1 E2. unfold bv_sort_id in *.
         destruct (find_sort (TBV iw) (w_sorts st)); inversion E1; subst; clear E1;
           destruct (find_sort (TBV dw) (w_sorts _)); inversion E2; subst; clear E2;
           cbn [reg_sort emit new_id w_sorts find_sort ty_eqb]; exact E. }
       unfold BOUND in *.
-      assert (Hl : parse_line true ps2 [num (w_next st2); "sort"; "array"; num ix; num dx] =
+      assert (Hl : parse_line_v v true ps2 [num (w_next st2); "sort"; "array"; num ix; num dx] =
                    POk (set_types ps2 (PM.add (key (w_next st2)) (TArr iw dw) (p_types ps2)))).
-      { apply sort_arr_line; auto; lia. }
-      destruct (inv_reg_sort m st2 ps2 _ (TArr iw dw) Hinv2 Hnone Hl) as [Hinv' Hmono].
+      { apply plv; [intros _; apply (sort_arr_pre ps2 _ ix dx iw dw); auto; lia|apply sort_arr_line; auto; lia]. }
+      destruct (inv_reg_sort v m st2 ps2 _ (TArr iw dw) Hinv2 Hnone Hl) as [Hinv' Hmono].
       eexists. split; [exact Hinv'|]. split.
       { eapply rest_eq_trans; [exact Hr1|]. eapply rest_eq_trans; [exact Hr2|]. repeat split. }
       split; [cbn [set_types p_signals]; congruence|]. split.
@@ -264,20 +270,20 @@ Proof.
   apply bv_sort_mono_next in E1, E2. intros H; inversion H; cbn; lia.
 Qed.
 
-Lemma finish_sim m e st1 ps1 cs st' id :
-  Inv m st1 ps1 -> is_symbol e = false -> wt e = true -> efits e = true ->
+Lemma finish_sim v m e st1 ps1 cs st' id :
+  Inv v m st1 ps1 -> is_symbol e = false -> wt e = true -> efits e = true ->
   find_expr e (w_exprs st1) = None ->
   Forall2 (fun c i => find_expr c (w_exprs st1) = Some i) (children e) cs ->
   finish_emit e st1 cs = POk (st', id) -> w_next st' <= BOUND ->
-  exists ps', Inv m st' ps' /\ rest_eq ps1 ps' /\ find_expr e (w_exprs st') = Some id /\ mono st1 st'.
+  exists ps', Inv v m st' ps' /\ rest_eq ps1 ps' /\ find_expr e (w_exprs st') = Some id /\ mono st1 st'.
 Proof.
   intros Hinv Es Hwt Hf Hnone Hcs H Hb. unfold finish_emit in H.
   destruct (sort_id st1 (type_of e)) as [st2 sort] eqn:Esort. cbn [new_id] in H.
   destruct (node_line (w_next st2) sort e cs) as [l| |] eqn:El; cbn [pbind] in H; try discriminate.
   inversion H; subst st' id. clear H. cbn [reg_expr emit w_next] in Hb.
-  destruct (sort_id_sim m st1 ps1 (type_of e) st2 sort Hinv (efits_ty e Hf) Esort ltac:(lia))
+  destruct (sort_id_sim v m st1 ps1 (type_of e) st2 sort Hinv (efits_ty e Hf) (wt_pos e Hwt) Esort ltac:(lia))
     as (ps2 & Hinv2 & Hr2 & Hs2 & Hfs & Hmo2 & He2).
-  pose proof (i_map _ _ _ Hinv) as Hm.
+  pose proof (i_map _ _ _ _ Hinv) as Hm.
   destruct (pre_ok m e Hm Es Hwt) as [Hwp Htp].
   assert (Hfp : efits (pre m e) = true).
   { rewrite efits_children, Htp, (efits_ty e Hf), (pre_children m e Es). cbn [andb].
@@ -285,29 +291,37 @@ Proof.
     apply tr_efits; auto; [apply (wt_child e)|apply (efits_child e)]; auto. }
   assert (Hkind : match pre m e with BVSymbol _ _ | ArraySymbol _ _ _ | ArrayConstant _ _ _ => False | _ => True end).
   { destruct e; cbn [is_symbol] in Es; try discriminate; cbn [pre]; try exact I; try (cbn [node_line] in El; discriminate). }
-  destruct (i_sorts _ _ _ Hinv2 _ _ Hfs) as [Hls Hts].
+  destruct (i_sorts _ _ _ _ Hinv2 _ _ Hfs) as [Hls Hts].
   assert (Hcs2 : Forall2 (fun c i => find_expr c (w_exprs st2) = Some i) (children e) cs).
   { rewrite He2. exact Hcs. }
   unfold BOUND in *.
-  assert (Hl : parse_line true ps2 l = POk (set_signal ps2 (w_next st2) (norm_node (pre m e)))).
-  { apply (node_line_parse ps2 (w_next st2) sort (pre m e) cs l); auto.
-    - apply efits_node; auto.
-    - apply efits_node; [apply norm_node_wt; exact Hwp|apply efits_norm; exact Hfp].
-    - rewrite node_line_pre. exact El.
-    - lia.
-    - lia.
-    - clear - Hcs2 Hinv2 Hb. induction Hcs2 as [|c i l1 l2 Hci _ IH]; constructor; auto.
-      destruct (i_exprs _ _ _ Hinv2 _ _ Hci) as (Hlt & _). lia.
-    - rewrite Htp. exact Hts.
-    - rewrite (pre_children m e Es). clear - Hcs2 Hinv2. induction Hcs2 as [|c i l1 l2 Hci _ IH]; cbn [map]; constructor; auto.
-      destruct (i_exprs _ _ _ Hinv2 _ _ Hci) as (_ & Hfi & _). exact Hfi. }
+  assert (Hcs_le : Forall (fun c => c <= U32MAX) cs).
+  { clear - Hcs2 Hinv2 Hb. induction Hcs2 as [|c i l1 l2 Hci _ IH]; constructor; auto.
+    destruct (i_exprs _ _ _ _ Hinv2 _ _ Hci) as (Hlt & _). lia. }
+  assert (Hcs_sig : Forall2 (fun c x => PM.find (key c) (p_signals ps2) = Some x) cs (children (pre m e))).
+  { rewrite (pre_children m e Es). clear - Hcs2 Hinv2. induction Hcs2 as [|c i l1 l2 Hci _ IH]; cbn [map]; constructor; auto.
+    destruct (i_exprs _ _ _ _ Hinv2 _ _ Hci) as (_ & Hfi & _). exact Hfi. }
+  assert (Hl : parse_line_v v true ps2 l = POk (set_signal ps2 (w_next st2) (norm_node (pre m e)))).
+  { apply plv.
+    - intros _. apply (node_line_checks ps2 (w_next st2) sort (pre m e) cs l); auto.
+      + apply efits_node; auto.
+      + rewrite node_line_pre. exact El.
+      + lia.
+      + rewrite Htp. exact Hts.
+    - apply (node_line_parse ps2 (w_next st2) sort (pre m e) cs l); auto.
+      + apply efits_node; auto.
+      + apply efits_node; [apply norm_node_wt; exact Hwp|apply efits_norm; exact Hfp].
+      + rewrite node_line_pre. exact El.
+      + lia.
+      + lia.
+      + rewrite Htp. exact Hts. }
   rewrite <- (tr_pre m e Es) in Hl.
   assert (Hincl : incl (syms e) (sm_dom m)).
   { rewrite (syms_children e Es). intros s Hs. apply in_flat_map in Hs. destruct Hs as (c & Hc & Hs).
     clear - Hcs2 Hinv2 Hc Hs. induction Hcs2 as [|c0 i l1 l2 Hci _ IH]; [contradiction|].
-    destruct Hc as [->|Hc]; [|auto]. destruct (i_exprs _ _ _ Hinv2 _ _ Hci) as (_ & _ & Hi). apply Hi. exact Hs. }
+    destruct Hc as [->|Hc]; [|auto]. destruct (i_exprs _ _ _ _ Hinv2 _ _ Hci) as (_ & _ & Hi). apply Hi. exact Hs. }
   assert (Hnone2 : find_expr e (w_exprs st2) = None) by (rewrite He2; exact Hnone).
-  destruct (inv_reg_expr m st2 ps2 l e Hinv2 Hnone2 Hincl Hl) as [Hinv' Hmono].
+  destruct (inv_reg_expr v m st2 ps2 l e Hinv2 Hnone2 Hincl Hl) as [Hinv' Hmono].
   eexists. split; [exact Hinv'|]. split; [eapply rest_eq_trans; [exact Hr2|repeat split]|]. split.
   - cbn [reg_expr emit new_id fst w_exprs find_expr]. rewrite expr_eqb_refl. reflexivity.
   - eapply mono_trans; [exact Hmo2|exact Hmono].
@@ -338,11 +352,11 @@ Qed.
 Definition fresh_small (st st' : wstate) (n : nat) : Prop :=
   forall e0 i0, find_expr e0 (w_exprs st') = Some i0 -> find_expr e0 (w_exprs st) = Some i0 \/ (esize e0 <= n)%nat.
 
-Definition esim (m : smap) (e : expr) : Prop :=
+Definition esim (v : code_variant) (m : smap) (e : expr) : Prop :=
   forall st st' id ps,
-    Inv m st ps -> wt e = true -> efits e = true ->
+    Inv v m st ps -> wt e = true -> efits e = true ->
     emit_expr e st = POk (st', id) -> w_next st' <= BOUND ->
-    exists ps', Inv m st' ps' /\ rest_eq ps ps' /\ find_expr e (w_exprs st') = Some id /\ mono st st' /\
+    exists ps', Inv v m st' ps' /\ rest_eq ps ps' /\ find_expr e (w_exprs st') = Some id /\ mono st st' /\
                 fresh_small st st' (esize e).
 
 Lemma emit_expr_next : forall e s s' i, emit_expr e s = POk (s', i) -> w_next s <= w_next s'.
@@ -374,10 +388,10 @@ Qed.
 Fixpoint max_size (l : list expr) : nat :=
   match l with [] => 0%nat | x :: l' => Nat.max (esize x) (max_size l') end.
 
-Lemma emit_list_sim m l : Forall (esim m) l -> forall st st1 cs ps,
-  Inv m st ps -> Forall (fun c => wt c = true) l -> Forall (fun c => efits c = true) l ->
+Lemma emit_list_sim v m l : Forall (esim v m) l -> forall st st1 cs ps,
+  Inv v m st ps -> Forall (fun c => wt c = true) l -> Forall (fun c => efits c = true) l ->
   emit_list l st = POk (st1, cs) -> w_next st1 <= BOUND ->
-  exists ps1, Inv m st1 ps1 /\ rest_eq ps ps1 /\
+  exists ps1, Inv v m st1 ps1 /\ rest_eq ps ps1 /\
               Forall2 (fun c i => find_expr c (w_exprs st1) = Some i) l cs /\ mono st st1 /\
               fresh_small st st1 (max_size l).
 Proof.
@@ -401,7 +415,7 @@ Qed.
 Lemma max_size_children e : (max_size (children e) < esize e)%nat.
 Proof. destruct e; cbn [children max_size esize]; lia. Qed.
 
-Theorem emit_expr_sim m : forall e, esim m e.
+Theorem emit_expr_sim v m : forall e, esim v m e.
 Proof.
   apply expr_ind_children. intros e IH st st' id ps Hinv Hwt Hf H Hb.
   rewrite emit_expr_unfold in H. destruct (find_expr e (w_exprs st)) as [i|] eqn:E.
@@ -417,11 +431,11 @@ Proof.
     { apply Forall_forall. intros c Hc. apply (wt_child e); auto. }
     assert (Hfc : Forall (fun c => efits c = true) (children e)).
     { apply Forall_forall. intros c Hc. apply (efits_child e); auto. }
-    destruct (emit_list_sim m (children e) IH st s1 cs ps Hinv Hwc Hfc El Hb1) as (ps1 & Hinv1 & Hr1 & Hcs & Hmo1 & Hsm1).
+    destruct (emit_list_sim v m (children e) IH st s1 cs ps Hinv Hwc Hfc El Hb1) as (ps1 & Hinv1 & Hr1 & Hcs & Hmo1 & Hsm1).
     assert (Hnone : find_expr e (w_exprs s1) = None).
     { destruct (find_expr e (w_exprs s1)) as [i|] eqn:E1; [|reflexivity]. exfalso.
       destruct (Hsm1 _ _ E1) as [H1|H1]; [congruence|]. pose proof (max_size_children e). lia. }
-    destruct (finish_sim m e s1 ps1 cs st' id Hinv1 Es Hwt Hf Hnone Hcs H Hb) as (ps' & Hinv' & Hr' & Hfe & Hmo').
+    destruct (finish_sim v m e s1 ps1 cs st' id Hinv1 Es Hwt Hf Hnone Hcs H Hb) as (ps' & Hinv' & Hr' & Hfe & Hmo').
     exists ps'. split; [exact Hinv'|]. split; [eapply rest_eq_trans; eauto|]. split; [exact Hfe|].
     split; [eapply mono_trans; eauto|].
     intros e0 i0 H0.
@@ -431,8 +445,8 @@ Proof.
     cbn [reg_expr emit w_exprs find_expr] in H0. destruct (expr_eqb e0 e) eqn:Ee.
     + apply expr_eqb_eq in Ee. subst e0. right. lia.
     + assert (He2 : w_exprs s2 = w_exprs s1).
-      { pose proof (i_map _ _ _ Hinv1) as Hm. 
-        destruct (sort_id_sim m s1 ps1 (type_of e) s2 sort Hinv1 (efits_ty e Hf) Esort) as (? & _ & _ & _ & _ & _ & He2); [|exact He2].
+      { pose proof (i_map _ _ _ _ Hinv1) as Hm. 
+        destruct (sort_id_sim v m s1 ps1 (type_of e) s2 sort Hinv1 (efits_ty e Hf) (wt_pos e Hwt) Esort) as (? & _ & _ & _ & _ & _ & He2); [|exact He2].
         cbn [reg_expr emit w_next] in Hb. lia. }
       rewrite He2 in H0. destruct (Hsm1 _ _ H0) as [H1|H1]; [left; exact H1|right]. pose proof (max_size_children e). lia.
 Qed.
